@@ -10,7 +10,7 @@ LEVEL = 'model_checking'
 STARTS = [0, 1, 2**32 - 3, 2**32 - 2, 2**32 - 1]
 RULE = ('2 (thorough 3) threads each open a stream that stays live (a streaming_shell whose service never finishes), id counter started at 0, 1, 2^32-3, 2^32-2, 2^32-1; scheduling points '
         'before every LINE (thorough: every bytecode) of AdbDevice._open and _AdbTransactionInfo.__init__, at every lock acquire/release and transport call; all schedules up to the preemption '
-        'bound; asyncio: 2-3 tasks under every I/O completion order; sequential histories of 6 opens across the wrap with all streams live; oracle: every OPEN arg0 in [1, 2^32-1], no OPEN reuses '
+        'bound; asyncio: 2-3 tasks under every I/O completion order; sequential histories of 6 opens across the wrap with all streams live; an open that the device refuses and that fails while another open overlaps it, followed by a third open; oracle: every OPEN arg0 in [1, 2^32-1], no OPEN reuses '
         'an id that is live in the protocol monitor, every open returns its own first payload; non-trivial = at least one preemption / I/O-order deviation or a counter start at the wrap; '
         'distinct = distinct (start, threads, choice list)')
 ASSUMPTIONS = ['adbsim device model', 'a stream held open across 2^32 opens is not reachable by any feasible history and not claimed', 'sequential consistency at line/bytecode granularity (CPython GIL)']
@@ -78,6 +78,58 @@ def run_threads(params, ch):
         return {'outcome': (tuple(sorted(ids)), tuple(r[0] for r in results)), 'viol': viol, 'states': sc.states, 'trans': sc.steps,
                 'nontrivial': (params['start'], n, params.get('opcodes', False), tuple(ch.choices)) if (dev or params['start'] > 1) else None,
                 'sample': {'start': params['start'], 'threads': n, 'open_ids': ids, 'scheduling_points': sc.steps, 'preemptions': sc.preemptions}}
+    finally:
+        s.env.sched = None
+        s.finish()
+
+
+def run_failed_overlap(params, ch):
+    """One open is refused by the device (CLSE instead of OKAY) and fails while another open overlaps it; a third open follows.
+    The ids of the two streams that stay live must differ, whatever the interleaving."""
+    key = ('overlap', 2)
+    if key not in _WARM:
+        _WARM.add(key)
+        from ..chooser import FixedChooser
+        run_failed_overlap(params, FixedChooser())
+    cfg = dict(CFG)
+    cfg['reject_open'] = [b'shell:reject']
+    s = Session(ch, cfg, twin='sync', lock_factory=SchedLock, max_calls=5000)
+    try:
+        if s.op(('connect',)) != ('ok', True):
+            raise HarnessError('connect failed')
+        s.dev._local_id = params['start']
+        sc = Scheduler(ch, max_steps=20000, trace_codes=codes())
+        io = s.dev._io_manager
+        sc.locks = [io._transport_lock, io._store_lock, s.dev._local_id_lock]
+        s.env.sched = sc
+        sc.spawn(lambda: s.op(('shell', 'reject', {'decode': False, 'transport_timeout_s': 0.5, 'read_timeout_s': 0.5})), name='refused')
+        sc.spawn(lambda: s.op(('gen-start', 'hold0', {'decode': False})), name='open0')
+        results = sc.run()
+        s.env.sched = None
+        if sc.verdict and sc.verdict.startswith('error'):
+            raise HarnessError(sc.verdict)
+        r3 = s.op(('gen-start', 'hold1', {'decode': False}))
+        viol = []
+        if sc.verdict:
+            viol.append({'msg': 'scheduler verdict: %s' % sc.verdict})
+        opens = [(p.a0, p.data) for w, p in s.env.events if w == 'H' and p.cmd == b'OPEN']
+        live = [i for i, d in opens if d.startswith(b'shell:hold')]
+        for i, _d in opens:
+            if not 1 <= i <= 0xFFFFFFFF:
+                viol.append({'msg': 'OPEN with local id %d' % i})
+        if len(set(live)) != len(live):
+            viol.append({'msg': 'two live streams share local id: OPENs %r' % (opens,)})
+        for code, msg in s.env.issues:
+            if code in ('dup-id', 'open', 'frame'):
+                viol.append({'msg': '%s: %s' % (code, msg)})
+        if results[0][0] != 'exc':
+            viol.append({'msg': 'harness: the refused open was expected to fail, got %r' % (results[0],)})
+        if results[1] != ('ok', b'h0') or r3 != ('ok', b'h1'):
+            viol.append({'msg': 'opens returned %r and %r, expected their own first payloads' % (results[1], r3)})
+        dev = [c for c in ch.choices if c]
+        return {'outcome': (tuple(i for i, _ in opens), results[0][:2]), 'viol': viol, 'states': sc.states, 'trans': sc.steps,
+                'nontrivial': (params['start'], 'overlap', tuple(ch.choices)) if (dev or params['start'] > 1) else None,
+                'sample': {'start': params['start'], 'open_ids': [i for i, _ in opens], 'refused_open': results[0][:2], 'scheduling_points': sc.steps}}
     finally:
         s.env.sched = None
         s.finish()
@@ -153,6 +205,8 @@ def parts(tier):
                         what='3 concurrent opens, line-level scheduling points', bound='preemptions <= 1'))
         out.append(Part('threads-2-opcodes', [{'start': st, 'n': 2, 'opcodes': True} for st in (0, 2**32 - 2)], run_threads, {'sched': 1, 'dev-order': 0}, split=2,
                         what='2 concurrent opens, bytecode-level scheduling points in id allocation', bound='preemptions <= 1'))
+    out.append(Part('failed-open-overlap', [{'start': st} for st in (STARTS if tier == 'thorough' else (0, 2**32 - 2))], run_failed_overlap, {'sched': pb, 'dev-order': 0}, split=2,
+                    what='an open refused by the device fails while another open overlaps it, then a third open', bound='preemptions <= %d' % pb))
     out.append(Part('tasks', [{'start': st, 'n': n} for st in STARTS for n in (2, 3)], run_tasks, {'io-order': None, 'dev-order': None}, split=1,
                     what='asyncio tasks, every I/O completion order and device wire order', bound='complete'))
     out.append(Part('sequential-wrap', [{'start': st, 'twin': t} for st in STARTS + [2**32 - 5, 2**31 - 1] for t in ('sync', 'async')], run_seq,
